@@ -44,8 +44,9 @@ _PURE_BUILTINS = {
     "len": len, "sorted": sorted, "min": min, "max": max, "sum": sum, "str": str, "int": int, "bool": bool,
     "tuple": tuple, "list": list, "set": set, "frozenset": frozenset, "dict": dict, "zip": lambda *a: list(zip(*a)),
     "range": lambda *a: list(range(*a)), "enumerate": lambda x, start=0: list(enumerate(x, start)),
-    "reversed": lambda x: list(reversed(x)), "any": any, "all": all, "abs": abs, "chr": chr, "ord": ord,
+    "reversed": lambda x: list(reversed(x)), "any": any, "all": all, "abs": abs, "chr": chr, "ord": ord, "float": float,
 }
+_MATH = {"isfinite", "isinf", "isnan", "log10", "log2", "log", "floor", "ceil", "prod", "sqrt", "copysign", "fabs"}
 _METHODS = {
     str: {"count", "replace", "index", "find", "rfind", "join", "split", "startswith", "endswith", "partition", "strip", "lstrip", "rstrip"},
     list: {"append", "extend", "pop", "index", "count", "insert", "copy", "remove", "sort", "reverse"},
@@ -99,7 +100,8 @@ class Mini:
         if isinstance(e, ast.BinOp):
             a, b = self.ev(e.left, env), self.ev(e.right, env)
             ops = {ast.Add: lambda: a + b, ast.Sub: lambda: a - b, ast.Mult: lambda: a * b, ast.FloorDiv: lambda: a // b,
-                   ast.Mod: lambda: a % b, ast.BitOr: lambda: a | b, ast.BitAnd: lambda: a & b}
+                   ast.Mod: lambda: a % b, ast.BitOr: lambda: a | b, ast.BitAnd: lambda: a & b, ast.Pow: lambda: a ** b,
+                   ast.Div: lambda: a / b}
             if type(e.op) in ops:
                 return ops[type(e.op)]()
             raise NoEval("binary operator")
@@ -185,6 +187,13 @@ class Mini:
                 if args == [None]:
                     return SLICE_ALL
                 raise NoEval("slice(...)")
+            if fn.id == "isinstance" and len(e.args) == 2:
+                types = {"tuple": tuple, "list": list, "str": str, "int": int, "float": float, "dict": dict, "set": set}
+                spec = e.args[1]
+                names_ = [x.id for x in (spec.elts if isinstance(spec, ast.Tuple) else [spec]) if isinstance(x, ast.Name)]
+                if not names_ or any(n_ not in types for n_ in names_):
+                    raise NoEval("isinstance(...)")
+                return isinstance(self.ev(e.args[0], env), tuple(types[n_] for n_ in names_))
             if fn.id == "map" and len(e.args) == 2:
                 seq = self.ev(e.args[1], env)
                 f0 = e.args[0]
@@ -195,6 +204,9 @@ class Mini:
                 if isinstance(f0, ast.Name) and f0.id in _PURE_BUILTINS:
                     return [_PURE_BUILTINS[f0.id](x) for x in seq]
                 raise NoEval("map(...)")
+            if isinstance(env.get(fn.id), tuple) and env[fn.id][:1] == ("mathfn",):
+                import math as _math
+                return getattr(_math, env[fn.id][1])(*[self.ev(a, env) for a in e.args])
             if fn.id in self.funcs:
                 args = [self.ev(a, env) for a in e.args]
                 kw = {k.arg: self.ev(k.value, env) for k in e.keywords}
@@ -220,7 +232,12 @@ class Mini:
                 import bisect as _b
                 seq, x = self.ev(e.args[0], env), self.ev(e.args[1], env)
                 return (_b.bisect_left if fn.attr == "bisect_left" else _b.bisect_right)(seq, x)
-            recv = self.ev(fn.value, env)
+            recv = self.ev(fn.value, env) if not (isinstance(fn.value, ast.Name) and fn.value.id == "math" and "math" not in env) else __import__("math")
+            import math as _math
+            if recv is _math:
+                if fn.attr not in _MATH:
+                    raise NoEval(f"math.{fn.attr}")
+                return getattr(_math, fn.attr)(*[self.ev(a, env) for a in e.args])
             self._check_method(recv, fn.attr)
             return getattr(recv, fn.attr)(*[self.ev(a, env) for a in e.args])
         raise NoEval("call")
@@ -310,6 +327,16 @@ class Mini:
                 raise _Break()
             elif isinstance(st, ast.Pass):
                 pass
+            elif isinstance(st, (ast.Import, ast.ImportFrom)):
+                import math as _math
+                if isinstance(st, ast.Import) and all(a.name == "math" for a in st.names):
+                    for a in st.names:
+                        env[a.asname or "math"] = _math
+                elif isinstance(st, ast.ImportFrom) and st.module == "math" and all(a.name in _MATH for a in st.names):
+                    for a in st.names:
+                        env[a.asname or a.name] = ("mathfn", a.name)
+                else:
+                    raise NoEval("import")
             elif isinstance(st, ast.Delete):
                 for t in st.targets:
                     if isinstance(t, ast.Subscript):
